@@ -39,7 +39,8 @@ def run(ctx):
                         "RotoV.Lemmas.RegistrationOps", "RotoV.Lemmas.RegistrationClosed",
                         "RotoV.Lemmas.RegistrationOrder", "RotoV.Lemmas.RegistrationExact",
                         "RotoV.Lemmas.RegistrationDefects", "RotoV.Lemmas.RegistrationReach",
-                        "RotoV.Lemmas.RegistrationAccepts", "RotoV.Lemmas.RegistrationOrigin", "RotoV.Model.Registration",
+                        "RotoV.Lemmas.RegistrationAccepts", "RotoV.Lemmas.RegistrationOrigin", "RotoV.Lemmas.RegistrationKind",
+                        "RotoV.Model.Registration",
                         "RotoV.Model.RegistrationSrc"])
     # histories of adds with rejected adds in them (a rejected add is the identity; T1/T2/T4 over histories)
     ok4 = prove(PROPS_HISTORY, ["RotoV.Lemmas.RegistrationSession", "RotoV.Model.RegistrationSession"])
